@@ -23,7 +23,16 @@ let check inp obs =
   let tags = [(if ordered then "ordered" else "root") ^ (if v1 then "-v1fn" else "-v2fn");
               (match parse_version version with Some V0 -> "state-v0" | Some V1 -> "state-v1" | None -> "bad-version");
               (if nent < 0 then "undecodable" else if nent = 0 then "n-0" else if nent < 64 then "n-1..63"
-               else if nent < 100 then "n-64..99" else "n-100+")] in
+               else if nent < 100 then "n-64..99" else if nent < 256 then "n-100..255" else "n-256+")] in
+  let tags = tags @ (match data with
+    | b :: _ when (int_of_byte b) land 3 = 3 -> ["count-bigint-mode"]
+    | _ :: _ when dec_len data = None && nent < 0 && (match data with [_] -> false | _ -> true)
+                  && (match dec_len_go data with None -> true | Some _ -> false) -> ["count-rejected"]
+    | _ -> []) in
+  let tags = tags @ (if int_of_n version > 255 then ["version-above-255"] else []) in
+  let go_dec = if ordered then (match dec_values_go data with Some _ -> true | None -> false)
+               else (match dec_entries_go data with Some _ -> true | None -> false) in
+  let tags = tags @ (if nent < 0 && not go_dec then ["go-decoder-rejects"] else []) in
   let guard = if ordered then guard_values_overrun data else guard_entries_overrun data in
   let tags = tags @ (if guard then ["guard-bytes-overrun"] else []) in
   { prop_ok = (obs = spec); model_eq = (obs = model); nontrivial = (nent <> 0);
@@ -31,4 +40,22 @@ let check inp obs =
     tags = String.concat "," tags;
     detail = (if obs = spec && obs = model then "" else Printf.sprintf "host=%s spec=%s model=%s" obs spec model) }
 
-let () = run_driver check
+(* vm_compute cross-check (small inputs only: BLAKE2b costs about 0.3 ms per block inside Coq) *)
+let coq inp obs =
+  let f = split_ws inp in
+  let r = (match f with
+    | ["root"; v; d] -> Some ("host_root", n_of_hex v, bytes_of_hex d)
+    | ["root1"; d] -> Some ("host_root", N0, bytes_of_hex d)
+    | ["ord"; v; d] -> Some ("host_ordered_root", n_of_hex v, bytes_of_hex d)
+    | ["ord1"; d] -> Some ("host_ordered_root", N0, bytes_of_hex d)
+    | _ -> None) in
+  match r with
+  | Some (fn, v, d) when List.length d <= 160 && (obs = "0" || String.length obs = 64) ->
+    if obs = "0" then
+      Some (Printf.sprintf "match %s blake2b_256 %s %s with None => true | Some _ => false end" fn (coq_n v) (coq_bytes d))
+    else
+      Some (Printf.sprintf "match %s blake2b_256 %s %s with Some r => bytes_eqb r %s | None => false end"
+              fn (coq_n v) (coq_bytes d) (coq_bytes (bytes_of_hex obs)))
+  | _ -> None
+
+let () = run_driver ~coq check
